@@ -39,7 +39,12 @@ MANIFEST = dict(
          'numbers = the C04 load model, every law); mirror / mirror_noLF / mirror_strain_values (odd law: negated loads mirror every row, min/max '
          'swapped; the *_LF columns under the proviso that no processed load equals previous_load, mirror_lf_refuted shows the proviso is needed); '
          'multipoint_is_pointwise (every point of a proportional multi-point run gets the rows of its single-point run, under the stated hypothesis '
-         'that the point orders the compared stresses/strains like point 0); derived_columns (S_a, S_m, eps_a, eps_m, R, Memory-3 overrides); '
+         'that the point orders the compared stresses/strains like point 0; multipoint_first_node_refuted: the hypothesis is needed for the code as it is); '
+         'recorder variants HCM/Select.v (min/max of a closed hysteresis and running strain extremes selected at the first point = the code as it is, '
+         'variant_ff_is_the_code, or for every point separately = the proposed repairs): multipoint_is_pointwise_variants (only what a variant still '
+         'compares at point 0 has to be ordered alike) and multipoint_is_pointwise_repaired (both selections per point: NO hypothesis, the property\'s '
+         'second sentence at full strength); chunked_multipoint_is_pointwise_variants / _repaired: the same for a history fed in chunks through '
+         'process(chunk, flush) (HCM/Chunks.v, simulation theorem chunk-wise); derived_columns (S_a, S_m, eps_a, eps_m, R, Memory-3 overrides); '
          'lf_extremes_bracket_refuted (the running extremes do not bracket the hysteresis strains in general, even for the strictly monotone '
          'injected law). The universally quantified part proved is structural; that the model IS the code (all columns, point by point) is '
          'translation-validation style correspondence on every run, exact for an injected integer law (1-4 points) and to 1e-12 for the real '
@@ -195,11 +200,20 @@ def run(res):
                     'recording proxy harness/hcm.py:RecordingLaw around Binned(ExtendedNeuber|SeegerBeste): the law is taken as the table of values it returned']
     res.assumptions += ['loads are integers (exact on doubles; the code\'s 1e-12 tolerances cannot matter on an integer grid)',
                         'multi-point load histories are proportional with positive ratios (the property\'s quantifier)',
-                        'multi-point = single-point is claimed under the hypothesis of theorem multipoint_is_pointwise (every point orders the '
-                        'compared stresses/strains like point 0); cases outside it are counted, not failed']
+                        'multi-point = single-point with the injected (non-physical) law is claimed under the hypothesis of theorem multipoint_is_pointwise_variants '
+                        'for the recorder variant the tree implements (no hypothesis for the repaired recorder); differences the model variant predicts are counted, '
+                        'not failed; with the real binned law (f) every difference is reported (known findings: first-node selection of the running extremes / of the '
+                        'corners of a closed hysteresis)',
+                        'chunked feeding (e): chunkings inside hcm.chunk_domain (the turning point carried over from the previous call is its last sample and is not '
+                        'directly followed by the flushed last sample of the chunk); outside it the multi-point path of the unchanged detector is not meaningful '
+                        '(notes/build/C05.md, Observations) -- chunking is not part of the property\'s quantifier',
+                        '(f): ratios are powers of two (identical class look-up of the binned law alone and in the batch; class-edge rounding is C07/C10); '
+                        'float noise 1e-9 relative to the largest stress / strain of the run']
     res.cov['rule'] = ('single point: exhaustive {-2..2} up to a length bound + random (length 2..30, alphabets {-k..k}, plateaus, intermediate points, '
                        'forced junction configurations, in and outside the C04 class) + nested envelopes of depth 3..9 with a closing load (Memory 2 after '
-                       'several inner loops); multi point: 2-4 points, integer ratios c_j/c_0 with c_0 in {1,2,3}; real laws: integer loads up to 600 MPa; '
+                       'several inner loops); multi point: 2-4 points, integer ratios c_j/c_0 with c_0 in {1,2,3}, load_step labels ascending / with gaps / offset / '
+                       'shuffled / descending; chunked: random sequences cut into 2-4 chunks, rare intermediate flushes, 1-4 points; real laws: integer loads up to 600 MPa; '
+                       'real-law batches: 2-4 points, ratios 2^k (k = -2..3), most loaded point 300..2500 MPa, half of the sequences with a junction between the passes; '
                        'non-trivial = at least one closed hysteresis in pass 2 and at least one secondary-branch point (counted distinct by input)')
     common.standard_proof_stage(res, 'C05')
 
